@@ -8,15 +8,16 @@ Local Opaque Nat.min Nat.sub.
 
 Ltac destr_all :=
   repeat match goal with
-  | b : bool |- _ => destruct b
   | m : mode |- _ => destruct m
   | k : kont |- _ => destruct k
   | j : rkont |- _ => destruct j
   end.
 
 Ltac fin H :=
-  try discriminate H; inversion H; subst; clear H; destr_all;
-  unfold hmx, hbr, hbw, hsw, hpd, kdown; simpl; repeat split; simpl in *; try lia.
+  try discriminate H; inversion H; subst; clear H;
+  unfold hmx, hbr, hbw, hsw, hpd, kdown; simpl;
+  first [ assumption
+        | destr_all; simpl in *; repeat split; lia ].
 
 Theorem tstep_G : forall w g t g' t' a r oM oBr oBw oSw oPd,
   L t -> oPd <= oM ->
@@ -26,6 +27,9 @@ Theorem tstep_G : forall w g t g' t' a r oM oBr oBw oSw oPd,
 Proof.
   intros w g [r0 w0 i0 p0 pr] g' t' a r oM oBr oBw oSw oPd HL Hle HG H.
   destruct g as [gbw gbr gmx gc].
+  assert (Bbw : b2n gbw <= 1) by (destruct gbw; simpl; lia).
+  assert (Bbr : b2n gbr <= 1) by (destruct gbr; simpl; lia).
+  assert (Bmx : b2n gmx <= 1) by (destruct gmx; simpl; lia).
   unfold L in HL. unfold GI in *. unfold tstep in H.
   unfold hmx, hbr, hbw, hsw, hpd in HG. simpl in *.
   destruct p0; simpl in *.
@@ -36,8 +40,7 @@ Proof.
     + destruct w0, r0; try destruct i0; fin H.
     + destruct w0; [destruct r0 as [|[|r0]]|destruct i0]; fin H.
     + destruct w0 as [|[|w0]]; [| destruct r0; [|destruct i0] |]; fin H.
-  - destruct gbr, m, w; simpl in H; fin H;
-      destruct HL as (-> & -> & _); simpl; lia.
+  - destruct HL as (-> & -> & _). destruct gbr, m, w; simpl in H; fin H.
   - fin H.
   - (* SA_mx *)
     unfold ls_first_test in H. unfold kmclass in HL.
@@ -66,16 +69,15 @@ Proof.
   - destruct j; simpl in HL; [destruct HL as (-> & -> & _)|]; fin H.
   - (* WA_br *)
     unfold WAcond in HL; simpl in HL.
-    destruct gbr, m, w; simpl in H; try discriminate H;
-      try (destruct r0; fin H; destruct HL as (-> & _); simpl; lia); fin H.
+    destruct HL as (-> & _). destruct gbr, m, w; simpl in H; try discriminate H; destruct r0; fin H.
   - (* WA_bw *)
-    unfold WAcond in HL; simpl in HL.
+    unfold WAcond in HL; simpl in HL. destruct HL as (-> & _).
     destruct gbw, m, w; simpl in H; fin H.
-  - unfold WAcond in HL; simpl in HL. destruct r0; fin H; destruct HL as (-> & _); simpl; lia.
+  - unfold WAcond in HL; simpl in HL. destruct HL as (-> & _). destruct r0; fin H.
   - fin H.
-  - fin H. destruct HL as (-> & -> & _). simpl. lia.
+  - destruct HL as (-> & -> & _). fin H.
   - fin H.
-  - fin H. destruct HL as (Hr & -> & _). destruct r0; [lia|]. simpl. lia.
+  - destruct HL as (Hr & -> & _). destruct r0; [lia|]. fin H.
   - contradiction.
   - contradiction.
   - contradiction.
